@@ -83,6 +83,22 @@ PROPS = {
         'assumptions': ['operands are the register values of the state; flags compared as complete F bytes'],
         'explanation': 'addU16/adcU16/sbcU16 = arithmetic spec for all 2^33 inputs (symbolic carry-vector proof); 40 slot obligations; Step-level theorems for every ss encoding',
     },
+    'C02': {
+        'targets': ['Z80.Props.C02'],
+        'count': HELPERS + fam('Alu8', 'IncDec8', 'RotShift', 'Bit') + ['Z80/Proofs/Families/Alu8.lean', 'Z80/Proofs/Families/IncDec8.lean',
+                                                                       'Z80/Proofs/Families/RotShift.lean', 'Z80/Proofs/Families/Bit.lean', 'Z80/Props/C02.lean'],
+        'correspond': corr_slots(12, 200, family=['Alu8', 'IncDec8', 'RotShift', 'Bit']),
+        'assumptions': ['bits 3/5 after SCF/CCF and BIT n,(HL)/(IX+d) are implementation-defined (Impl.koron records: from A / cleared)'],
+        'explanation': 'helper characterisations for all A x operand x F (symbolic for binary ops, decide over the full table for unary/DAA); 559 slot obligations; Step-level theorems for every encoding; encoding independence',
+    },
+    'C04': {
+        'targets': ['Z80.Props.C04'],
+        'count': HELPERS + fam('Jump', 'CallRet', 'Stack') + ['Z80/Proofs/Families/Jump.lean', 'Z80/Proofs/Families/CallRet.lean',
+                                                             'Z80/Proofs/Families/Stack.lean', 'Z80/Props/C04.lean'],
+        'correspond': corr_slots(40, 400, family=['Jump', 'CallRet', 'Stack']),
+        'assumptions': ['user memory is a byte store (needed for the CALL;RET and PUSH;POP round trips)'],
+        'explanation': 'slot obligations of Jump/CallRet/Stack; taken iff condition for all F; push layout; CALL;RET and PUSH;POP round trips for every state incl. SP wrap',
+    },
     'C16': {
         'targets': ['Z80.Props.C16'],
         'count': ['Z80/Props/C16.lean'],
